@@ -405,3 +405,249 @@ Section OrderValid.
     - intros x Hx. apply -> in_rev. apply (F x false). rewrite S0. apply in_map_iff. exists x. auto.
   Qed.
 End OrderValid.
+
+(** * Stateless DFS: a normal return means the relation is acyclic on what was visited *)
+Section TopoStateless.
+  Variable D : nat -> list nat.
+  Let nb (_ : unit) (x : nat) : unit * list nat := (tt, D x).
+
+  Fixpoint SOK2 (E : list nat) (ab : list nat) (stack : list (nat * bool)) : Prop :=
+    match stack with
+    | [] => True
+    | (x, b) :: rest =>
+        (if b then (forall y, In y (D x) -> In y E \/ In y ab) /\ ~ In x E else True) /\
+        SOK2 E (x :: ab) rest
+    end.
+
+  Lemma SOK2_notE E stack : forall ab x, SOK2 E ab stack -> In (x, true) stack -> ~ In x E.
+  Proof.
+    induction stack as [|[x0 b] rest IH]; intros ab x H Hin; [contradiction|].
+    cbn [SOK2] in H. destruct H as [H1 H2]. destruct Hin as [Hin|Hin].
+    - injection Hin as -> ->. apply H1.
+    - eapply IH; eassumption.
+  Qed.
+
+  Lemma SOK2_weaken E E' stack : forall ab ab',
+    SOK2 E ab stack ->
+    (forall z, In z ab -> In z E' \/ In z ab') ->
+    (forall z, In z E -> In z E') ->
+    (forall x, In (x, true) stack -> ~ In x E') ->
+    SOK2 E' ab' stack.
+  Proof.
+    induction stack as [|[x0 b] rest IH]; intros ab ab' H W S N; [exact I|].
+    cbn [SOK2] in *. destruct H as [H1 H2]. split.
+    - destruct b; [|exact I]. destruct H1 as [A C]. split.
+      + intros y Hy. destruct (A y Hy) as [Y|Y]; [left; auto|apply W; exact Y].
+      + apply N. now left.
+    - apply (IH (x0 :: ab) (x0 :: ab')); auto.
+      + intros z [<-|Hz]; [right; now left|]. destruct (W z Hz); [now left|right; now right].
+      + intros x Hx. apply N. now right.
+  Qed.
+
+  Lemma SOK2_false_prefix E l : forall ab stack,
+    SOK2 E ab (map (fun n => (n, false)) l ++ stack) <-> SOK2 E (rev l ++ ab) stack.
+  Proof.
+    induction l as [|a t IH]; intros ab stack; cbn [map app rev SOK2]; [reflexivity|].
+    rewrite IH. rewrite <- app_assoc. cbn [app]. tauto.
+  Qed.
+
+  Lemma SOK2_all_false E l : forall ab, SOK2 E ab (map (fun n => (n, false)) l).
+  Proof. induction l as [|a t IH]; intros ab; cbn [map SOK2]; auto. Qed.
+
+  Definition trues (stack : list (nat * bool)) : list nat := map fst (filter snd stack).
+
+  Lemma trues_In stack z : In z (trues stack) <-> In (z, true) stack.
+  Proof.
+    unfold trues. rewrite in_map_iff. split.
+    - intros [[a b] [E H]]. cbn in E. subst a. apply filter_In in H. destruct H as [H B]. cbn in B. now subst b.
+    - intros H. exists (z, true). split; [reflexivity|]. apply filter_In. auto.
+  Qed.
+
+  Lemma trues_false_prefix l stack : trues (map (fun n => (n, false)) l ++ stack) = trues stack.
+  Proof. induction l as [|a t IH]; cbn [map app]; [reflexivity|]. unfold trues in *. cbn [filter snd]. exact IH. Qed.
+
+  Record TInv2 (stack : list (nat * bool)) (visiting emitted result : list nat) : Prop := {
+    t2_em : forall z, In z emitted <-> In z result;
+    t2_nodup : NoDup result;
+    t2_ord : forall l1 x l2, result = l1 ++ x :: l2 -> forall y, In y (D x) -> In y l2;
+    t2_vis : forall z, In z visiting <-> In (z, true) stack;
+    t2_sok : SOK2 emitted [] stack;
+    t2_uniq : NoDup (trues stack);
+  }.
+
+  Lemma topo_loop_stateless fuel : forall stack visiting emitted result out,
+    TInv2 stack visiting emitted result ->
+    topo_loop nb fuel tt stack visiting emitted result = Ok out ->
+    exists res', out = rev res' /\ NoDup res' /\
+      (forall l1 x l2, res' = l1 ++ x :: l2 -> forall y, In y (D x) -> In y l2) /\
+      (forall z, In z result -> In z res') /\
+      (forall z b, In (z, b) stack -> In z res').
+  Proof.
+    induction fuel as [|f IH]; intros stack visiting emitted result out HI H; [discriminate|].
+    cbn [topo_loop] in H. destruct stack as [|[id nv] rest].
+    - apply Ok_inj in H. subst out. exists result. split; [reflexivity|].
+      split; [apply (t2_nodup _ _ _ _ HI)|]. split; [apply (t2_ord _ _ _ _ HI)|].
+      split; [auto|intros z b []].
+    - pose proof (t2_sok _ _ _ _ HI) as HS. cbn [SOK2] in HS. destruct HS as [HS1 HS2].
+      destruct (memn id emitted) eqn:Em.
+      + apply memn_In in Em.
+        assert (nv = false).
+        { destruct nv; [|reflexivity]. destruct HS1 as [_ N]. contradiction. }
+        subst nv.
+        assert (HI' : TInv2 rest visiting emitted result).
+        { destruct HI. constructor; auto.
+          - intros z. rewrite t2_vis0. split; [intros [C|C]; [discriminate|exact C]|now right].
+          - apply (SOK2_weaken emitted emitted rest [id] []); auto.
+            + intros z [<-|[]]. now left.
+            + intros x Hx. apply (SOK2_notE _ _ _ _ HS2 Hx). }
+        destruct (IH _ _ _ _ _ HI' H) as [res' [A [B [C [E F]]]]].
+        exists res'. repeat split; auto.
+        intros z b [Hz|Hz]; [|eauto]. injection Hz as <- _. apply E. now apply (t2_em _ _ _ _ HI).
+      + apply memn_false in Em. destruct nv.
+        * destruct HS1 as [A1 A3].
+          pose proof (t2_uniq _ _ _ _ HI) as U. unfold trues in U. cbn [filter snd map fst] in U.
+          inversion U as [|? ? Un Ud]; subst. fold (trues rest) in Un, Ud.
+          assert (Nrest : ~ In (id, true) rest) by (intros Hin; apply Un; now apply trues_In).
+          assert (HI' : TInv2 rest (remn id visiting) (id :: emitted) (id :: result)).
+          { destruct HI. constructor.
+            - intros z. cbn [In]. rewrite t2_em0. tauto.
+            - constructor; [rewrite <- t2_em0; exact Em|assumption].
+            - intros l1 x l2 E y Hy. destruct l1 as [|a l1]; cbn [app] in E.
+              + injection E as <- <-. destruct (A1 y Hy) as [Y|[]]. now apply t2_em0.
+              + injection E as _ E. eapply t2_ord0; eassumption.
+            - intros z. rewrite remn_In, t2_vis0. split.
+              + intros [N [C|C]]; [injection C as ->; congruence|exact C].
+              + intros Hz. split; [intros ->; contradiction|now right].
+            - apply (SOK2_weaken emitted (id :: emitted) rest [id] []); auto.
+              + intros z [<-|[]]. left. now left.
+              + intros z Hz. now right.
+              + intros x Hx [<-|C]; [contradiction|]. apply (SOK2_notE _ _ _ _ HS2 Hx); assumption.
+            - exact Ud. }
+          destruct (IH _ _ _ _ _ HI' H) as [res' [A [B [C [E F]]]]].
+          exists res'. repeat split; auto.
+          -- intros z Hz. apply E. now right.
+          -- intros z b [Hz|Hz]; [|eauto]. injection Hz as <- _. apply E. now left.
+        * destruct (memn id visiting) eqn:Ev; [discriminate|]. apply memn_false in Ev.
+          unfold nb in H at 1. rewrite rev_append_rev in H. rewrite <- map_rev in H.
+          assert (HI' : TInv2 (map (fun n => (n, false)) (rev (D id)) ++ (id, true) :: rest)
+                          (id :: visiting) emitted result).
+          { destruct HI. constructor; auto.
+            - intros z. cbn [In]. rewrite t2_vis0. rewrite in_app_iff. cbn [In]. split.
+              + intros [<-|[C|C]]; [right; now left|discriminate|right; now right].
+              + intros [C|[C|C]].
+                * apply in_map_iff in C. destruct C as [n [C _]]. discriminate.
+                * injection C as ->. now left.
+                * right. now right.
+            - apply SOK2_false_prefix. rewrite rev_involutive, app_nil_r. cbn [SOK2]. split; [split|].
+              + intros y Hy. now right.
+              + exact Em.
+              + apply (SOK2_weaken emitted emitted rest [id] (id :: D id)); auto.
+                * intros z [<-|[]]. right. now left.
+                * intros x Hx. apply (SOK2_notE _ _ _ _ HS2 Hx).
+            - rewrite trues_false_prefix. unfold trues. cbn [filter snd map fst]. fold (trues rest).
+              constructor.
+              + intros Hin. apply trues_In in Hin. apply Ev. apply t2_vis0. now right.
+              + unfold trues in t2_uniq0. cbn [filter snd] in t2_uniq0. exact t2_uniq0. }
+          destruct (IH _ _ _ _ _ HI' H) as [res' [A [B [C [E F]]]]].
+          exists res'. repeat split; auto.
+          intros z b [Hz|Hz].
+          -- injection Hz as <- _. apply (F id true). apply in_or_app. right. now left.
+          -- apply (F z b). apply in_or_app. right. now right.
+  Qed.
+
+  (** A rank that decreases along every edge out of an emitted node. *)
+  Fixpoint after (z : nat) (l : list nat) : nat :=
+    match l with [] => 0 | a :: t => if a =? z then length t else after z t end.
+
+  Lemma after_lt z l : In z l -> after z l < length l.
+  Proof.
+    induction l as [|a t IH]; intros H; [contradiction|]. cbn [after length].
+    destruct (a =? z) eqn:E; [lia|]. apply Nat.eqb_neq in E. destruct H as [H|H]; [congruence|].
+    specialize (IH H). lia.
+  Qed.
+
+  Lemma after_split l1 x l2 : ~ In x l1 -> after x (l1 ++ x :: l2) = length l2.
+  Proof.
+    induction l1 as [|a t IH]; intros N; cbn [app after]; [now rewrite Nat.eqb_refl|].
+    destruct (a =? x) eqn:E; [apply Nat.eqb_eq in E; subst; exfalso; apply N; now left|].
+    apply IH. intros H. apply N. now right.
+  Qed.
+
+  Theorem topo_stateless_acyclic fuel start out :
+    topo_order_forward nb fuel tt start = Ok out ->
+    exists rank : nat -> nat,
+      (forall x, In x start -> In x out) /\
+      forall x y, In x out -> In y (D x) -> In y out /\ rank y < rank x.
+  Proof.
+    unfold topo_order_forward. intros H.
+    assert (S0 : rev (map (fun n => (n, false)) start) = map (fun n => (n, false)) (rev start)) by now rewrite map_rev.
+    rewrite S0 in H.
+    assert (HI : TInv2 (map (fun n => (n, false)) (rev start)) [] [] []).
+    { constructor.
+      - tauto.
+      - constructor.
+      - intros l1 x l2 E0. destruct l1; discriminate.
+      - intros z. split; [intros []|]. intros Hin. apply in_map_iff in Hin. destruct Hin as [n [C _]]. discriminate.
+      - apply SOK2_all_false.
+      - rewrite <- (app_nil_r (map _ _)). rewrite trues_false_prefix. constructor. }
+    destruct (topo_loop_stateless _ _ _ _ _ _ HI H) as [res' [A [B [C [_ F]]]]].
+    exists (fun z => after z res'). subst out. split.
+    - intros x Hx. apply -> in_rev. apply (F x false). apply in_map_iff. exists x. split; [reflexivity|now apply -> in_rev].
+    - intros x y Hx Hy. apply in_rev in Hx.
+      destruct (in_split _ _ Hx) as [l1 [l2 E]].
+      assert (N1 : ~ In x l1).
+      { rewrite E in B. apply NoDup_remove_2 in B. intros I. apply B. apply in_or_app. now left. }
+      pose proof (C l1 x l2 E y Hy) as Hy2.
+      split.
+      + apply -> in_rev. rewrite E. apply in_or_app. right. now right.
+      + rewrite E at 2. rewrite (after_split l1 x l2 N1).
+        destruct (in_split _ _ Hy2) as [m1 [m2 E2]].
+        assert (N2 : ~ In y (l1 ++ x :: m1)).
+        { rewrite E, E2 in B. replace (l1 ++ x :: m1 ++ y :: m2) with ((l1 ++ x :: m1) ++ y :: m2) in B
+            by (rewrite <- app_assoc; reflexivity).
+          apply NoDup_remove_2 in B. intros I. apply B. apply in_or_app. now left. }
+        rewrite E, E2. replace (l1 ++ x :: m1 ++ y :: m2) with ((l1 ++ x :: m1) ++ y :: m2)
+          by (rewrite <- app_assoc; reflexivity).
+        rewrite (after_split _ y m2 N2). rewrite app_length. cbn [length]. lia.
+  Qed.
+End TopoStateless.
+
+(** * Cycles are detected: when resolve_rewrite_mapping returns, the selected records are acyclic *)
+Theorem resolve_acyclic pm pred m :
+  resolve_rewrite_mapping pm pred = Ok m ->
+  exists rank : nat -> nat, forall k r t,
+    In k (pm_keys pm) -> pm_filtered pm pred k = Some r -> In t (new_parent_ids r) -> rank t < rank k.
+Proof.
+  unfold resolve_rewrite_mapping.
+  set (D := fun id => match pm_filtered pm pred id with Some r => new_parent_ids r | None => [] end).
+  destruct (topo_order_forward _ _ _ _) as [ids| | |] eqn:E; cbn [bind]; try discriminate.
+  intros _.
+  destruct (topo_stateless_acyclic D _ _ _ E) as [rank [A B]].
+  exists rank. intros k r t Hk F Ht.
+  apply (B k t); [now apply A|]. unfold D. now rewrite F.
+Qed.
+
+(** * In the domain the dependency relation is acyclic, the targets are in scope, the root has no
+    record *)
+Theorem dom_ok_facts s o : wf_dag (pg (s_g s)) -> dom_ok s o = true ->
+  (exists rank : nat -> nat, forall x y,
+     In x (find_descendants_for_rebase s (o_imm o)) ->
+     In y (oc_deps (s_g s) (s_pm s) (find_descendants_for_rebase s (o_imm o)) [] x) -> rank y < rank x) /\
+  (forall k r t, In (k, r) (s_pm s) -> In t (new_parent_ids r) -> In t (scope s (o_imm o))) /\
+  pm_get (s_pm s) 0 = None.
+Proof.
+  intros W H. unfold dom_ok in H. rewrite !andb_true_iff in H. destruct H as [[H1 _] H3].
+  rewrite forallb_forall in H1. split; [|split].
+  - set (T := find_descendants_for_rebase s (o_imm o)) in *.
+    destruct (topo_order_forward _ _ _ _) as [out| | |] eqn:E; try discriminate.
+    destruct (topo_stateless_acyclic (deps_full (s_g s) (s_pm s) T) _ _ _ E) as [rank [A B]].
+    exists rank. intros x y Hx Hy. apply (B x y); [|exact Hy]. apply A. now apply -> in_rev.
+  - intros k r t Hin Ht. specialize (H1 _ Hin). cbn [fst snd] in H1.
+    rewrite !andb_true_iff in H1. destruct H1 as [_ H1]. rewrite forallb_forall in H1.
+    specialize (H1 t Ht). apply andb_true_iff in H1. destruct H1 as [_ H1]. apply memn_In in H1.
+    unfold scope. apply ancs_spec in H1; [|assumption]. apply ancs_spec; [assumption|].
+    destruct H1 as [h [Hh Ha]]. exists h. split; [apply in_or_app; now left|assumption].
+  - destruct (pm_get (s_pm s) 0) as [r|] eqn:G; [|reflexivity]. exfalso.
+    apply pm_get_In in G. specialize (H1 _ G). cbn [fst snd] in H1.
+    rewrite !andb_true_iff in H1. destruct H1 as [[[H1 _] _] _]. discriminate.
+Qed.
